@@ -361,6 +361,9 @@ impl<O: Op + Clone, ALLOC: FastOpAllocator> DiagonalSubsection for FastOpsTempla
                     let bond = old_op_node.op.get_bond();
                     bond_counters[bond] -= 1;
                     let bond = node_ref.op.get_bond();
+                    if bond >= bond_counters.len() {
+                        bond_counters.resize(bond + 1, 0);
+                    }
                     bond_counters[bond] += 1;
                 }
                 self.ops[p] = Some(node_ref);
@@ -584,6 +587,9 @@ impl<O: Op + Clone, ALLOC: FastOpAllocator> DiagonalSubsection for FastOpsTempla
                     };
                     if let Some(bond_counters) = self.bond_counters.as_mut() {
                         let bond = node_ref.op.get_bond();
+                        if bond >= bond_counters.len() {
+                            bond_counters.resize(bond + 1, 0);
+                        }
                         bond_counters[bond] += 1;
                     }
                     self.ops[p] = Some(node_ref);
